@@ -56,6 +56,15 @@ def run(v, tier, replay):
     if rc != 0:
         raise lib.Inconclusive("c19 driver failed: " + (so + se)[-3000:])
     events = lib.read_ndjson(tr)
+    # acknowledgements around cookies sealed under keys the server never generated (white-box forger: overlay driver
+    # in package transport, real server on UDP loopback); same event kind, same predicate
+    fo = os.path.join(sd, "forged.ndjson")
+    orc, oso, ose = lib.overlay_test("transport", "^TestVerifForgedCookies$", env_extra={"VT_OUT": fo}, timeout=600)
+    fev = lib.read_ndjson(fo) if os.path.exists(fo) else []
+    if orc != 0 or not any(e["ev"] == "summary" for e in fev):
+        raise lib.Inconclusive("overlay driver transport (forged cookies) failed: %s" % (oso + ose)[-2000:])
+    events += [e for e in fev if e["ev"] == "cookie"]
+    lib.write_ndjson(tr, events)
     r = lib.tlc("Trace_HopHandshake19", "Trace_HopHandshake19.cfg", files={"trace.ndjson": "@" + tr}, workers=1, timeout=900)
     v.add_tlc("Trace_HopHandshake19 (mass hellos, hidden-server probes)", r)
     if not r.ok:
